@@ -57,6 +57,9 @@ CHECKS = {
   "C02": ("enumerated stage table (530 rows x parameters x k x source modes) + Hypothesis single stages, chains and fan-out schedules, observed through counting / pull-bounded sources",
           "Every public stage has a table row (builder, need(k), domain): 0 reads at construction and at iter(), reads == need(j) after every output j <= k (<= for maximal rows), OverRead on a bounded source anywhere is a violation, so an eager stage fails instead of hanging; chains of 2-4 stages compose their need functions; tee/thub/copy fan-outs under generated consumer schedules read exactly as far as the furthest consumer. Enumerated per row in both tiers + sampled chains.",
           "need(k) table written from the property and documented look-aheads; a filter's memory iterable (read at call time) and combinatoric itertools wrappers (read their pool by definition) are outside the claim; numpy-backed strategies not installed.", "3/C02"),
+  "C06": ("Hypothesis vs reference model (diffeq_ref with per-sample coefficient lookup on element-wise combined coefficient sequences), counting sources for pull accounting",
+          "Filter shapes with any subset of coefficients (a[0] included) replaced by finite, periodic or constant Streams over counting sources, built by three routes; sums, differences, products, scalings, delays and a self-product sharing Streams: every output must equal the time-varying difference equation exactly, the output must end cleanly with the shortest of input and coefficient streams, and every source must have been read exactly once per output. Sampled.",
+          "Values are Q; sums use structurally different (or constant-equal) denominators so the documented cross-multiplied form applies; numerators are never identically zero (that annihilates the streams they multiply).", "3/C06"),
 }
 NOT_BUILT = "check not built yet in this session (planned in DESIGN.md section 3); no claim is made until it is"
 
